@@ -183,6 +183,51 @@ def main():
         x.facts["wrappers_same_routing"] = same
     except OSError as e:
         x.facts["wrappers_same_routing"] = "unreadable: %s" % e
+    # Symmetry of the per-ISA wrappers: inside one file the raw entry points of One, Two and
+    # Three (find_raw / rfind_raw) are the same routing modulo the confirm closure and the
+    # direction (the model has ONE definition, `wrapFind` / `wrapRfind`, for all of them).
+    def fn_bodies(text, name):
+        out = []
+        for m in re.finditer(r"pub unsafe fn %s\(" % name, text):
+            j = text.find("{", text.find(")", m.end()))
+            # skip the return type: first `{` after `->` ... handled by scanning from the `)` that closes the args
+            depth, k = 0, j
+            while k < len(text):
+                if text[k] == "{":
+                    depth += 1
+                elif text[k] == "}":
+                    depth -= 1
+                    if depth == 0:
+                        break
+                k += 1
+            out.append(text[j:k + 1])
+        return out
+    def sym_norm(b):
+        b = re.sub(r"\|b\| \{[^{}]*\}", "CONFIRM", b)
+        b = re.sub(r"\|b\| [^,)]*", "CONFIRM", b)
+        for a_, b_ in (("rfind_raw", "find_raw"), ("rev_byte_by_byte", "fwd_byte_by_byte"), ("Three", "One"), ("Two", "One")):
+            b = b.replace(a_, b_)
+        return re.sub(r"\s+", " ", b)
+    sym = {}
+    for rel in ("src/arch/x86_64/sse2/memchr.rs", "src/arch/x86_64/avx2/memchr.rs", "src/arch/aarch64/neon/memchr.rs",
+                "src/arch/wasm32/simd128/memchr.rs"):
+        try:
+            t = strip_comments(cut_tests(read(a.repo, rel)))
+        except OSError:
+            continue
+        t = re.sub(r"^\s*#\[cfg\(memchr_verif\)\]\n(?:[^\n]*\n)", "", t, flags=re.M)
+        bodies = [sym_norm(b) for nm in ("find_raw", "rfind_raw") for b in fn_bodies(t, nm)]
+        distinct = sorted(set(bodies))
+        sym[rel] = dict(bodies=len(bodies), distinct=len(distinct))
+        if len(bodies) != 6 or len(distinct) != 1:
+            detail = ""
+            if len(distinct) > 1:
+                x0, x1 = distinct[0], distinct[1]
+                j = next((i for i in range(min(len(x0), len(x1))) if x0[i] != x1[i]), min(len(x0), len(x1)))
+                detail = ": ...%s... vs ...%s..." % (x0[max(0, j - 50):j + 50], x1[max(0, j - 50):j + 50])
+            x.broken.append("%s: the %d find_raw/rfind_raw wrappers of One/Two/Three are not the same routing (%d distinct)%s" % (
+                rel, len(bodies), len(distinct), detail))
+    x.facts["wrapper_symmetry"] = sym
     # the seven x86_64 dispatchers all instantiate the one ifunc macro
     try:
         d = strip_comments(read(a.repo, "src/arch/x86_64/memchr.rs"))
